@@ -40,7 +40,8 @@ static void
 oracle_fail(const char* fmt, ...)
 {
   ++oracle_fails;
-  if (oracle_fails > 40)
+  static long printed = 0; // KNOWN-CANDIDATE lines are counted in oracle_fails too: they must not use up this budget
+  if (++printed > 40)
     return;
   va_list ap;
   va_start(ap, fmt);
@@ -351,6 +352,16 @@ emit_bins(PDI* pdi, vh::Rng& rng, int N, int R, int nsample, bool skip_lists, bo
       if (reported > list_budget)
         continue;
       list_budget -= reported;
+      if (has_ignore_flag(*pdi))
+        {
+          // the list function sizes its output with the reported count: check the count before calling it
+          ++oracle_checks;
+          if ((long)num_pairs(*pdi, b, true) * std::max(1, tofm) != (long)reported)
+            {
+              oracle_fail("reported counts inconsistent: %u with TOF, %u spatial, TOF mashing factor %d, bin %s", reported, num_pairs(*pdi, b, true), tofm, bin_str(b).c_str());
+              continue;
+            }
+        }
       std::vector<DetectionPositionPair<>> all;
       all_pairs(*pdi, all, b, false);
       std::vector<DP> lst;
@@ -1027,7 +1038,7 @@ run_history(const Cfg& c, vh::Rng& rng, bool thorough)
   std::fprintf(out, "%d %d\n", pdi->get_min_tangential_pos_num(), pdi->get_max_tangential_pos_num());
   History h{ c, rng, N, c.R, pdi->get_max_segment_num() };
   h.check(*pdi, 10); // builds all lazy tables with the original sampling
-  const int nsteps = thorough ? 8 : 6;
+  const int nsteps = thorough ? 10 : 8;
   for (int step = 0; step < nsteps; ++step)
     {
       if (rng.range(0, 3) == 0)
@@ -1065,7 +1076,7 @@ main(int argc, char** argv)
   cfgs.push_back({ 16, 5, 3, 2, 8, 0, -1, "" });
   cfgs.push_back({ 12, 6, 5, 3, 3, 0, -1, "" });
   // generated small scanners
-  const int ngen = thorough ? 300 : 45;
+  const int ngen = thorough ? 300 : 60;
   for (int k = 0; k < ngen; ++k)
     {
       Cfg c;
@@ -1112,7 +1123,7 @@ main(int argc, char** argv)
     }
   // the same formulas are copied into the Generic / BlocksOnCylindrical classes (no TOF, no view mashing there):
   // generated block scanners, every span / max_delta
-  const int nblk = thorough ? 60 : 14;
+  const int nblk = thorough ? 60 : 18;
   for (int k = 0; k < nblk; ++k)
     {
       Cfg c;
